@@ -33,7 +33,7 @@ LEVEL_TEXT = ('Theorems for every grid, layer configuration, cache state and req
 LEVEL_NOTE = ('Trusted: Coq kernel; hand-written model Limits.v (+Grid.v); the correspondence harness. Not modelled: meta_buffer > 0, '
               'minimize_meta_requests, bulk_meta_tiles, rescale_tiles, coverages / authorization limits, reprojection (requests are in the '
               'grid SRS), seeding. IEEE rounding not modelled (exact lattice: bit-exact; realistic grids: 1e-6 tolerance on bboxes). '
-              'WMTS GetFeatureInfo does not compare FORMAT with the layer format (pinned by the test-suite of mapproxy: documented) and does not validate dimension values before asking the upstream (known finding).')
+              'WMTS GetFeatureInfo does not compare FORMAT with the layer format (pinned by the test-suite of mapproxy: documented, _refuted theorem); dimension values are validated as for GetTile.')
 DESIGN_REF = 'DESIGN.md section 5, C16'
 RULE = ('case = (layer configuration incl. grid, cache state, service, request); non-trivial = address on / next to a matrix '
         'boundary or of huge magnitude, non-numeric component, wrong format / dimension value, or a map request within +-1 of '
@@ -485,11 +485,6 @@ def tile_oracle(ctx, li, app, q, url, ans, summ):
         fmt_ok = True
     if not (fmt_ok and d_ok):
         what = 'format' if not fmt_ok else 'dimension'
-        if is_fi:
-            if ans == 'Ok' or cost:
-                ctx.fail('featureinfo,unchecked-dimension',
-                         'WMTS GetFeatureInfo with a dimension value that is not offered is answered %r with %r: %s' % (ans, cost[:2], url), rep)
-            return
         if ans == 'Ok':
             ctx.fail('tile,%s,invalid-%s,answered' % (svc, what), 'invalid %s answered 200: %s' % (what, url), rep)
         elif cost:
